@@ -50,6 +50,13 @@ func c02Stream(cs *drv.Case, vals []ref.Value, encs [][]byte, trail []byte, sche
 			src.Churn = func() { san.PoolChurn(8192) }
 			cs.C.Obs("pool-churning reader cases", 1)
 		}
+		if cs.R.Intn(4) == 0 {
+			// the last bytes of the last value arrive together with an error (any error, not only io.EOF: a limit
+			// reader, a reset right behind the last segment): the value was delivered completely all the same
+			src.ErrAt, src.WithData = valuesEnd, true
+			src.Err = []error{io.EOF, doubles.ErrCustom, io.ErrUnexpectedEOF, doubles.ErrTimeout}[cs.R.Intn(4)]
+			cs.C.Obs("values whose last bytes came with an error", 1)
+		}
 		d := thrift.NewReaderSkipDecoder(src)
 		defer d.Release()
 		pos := 0
